@@ -8,9 +8,9 @@ from .common import run_control, generic_rules
 
 def analyse(ctx: CheckContext, p: Program):
     r = Resolver(p)
-    generic_rules(ctx, p, r, "C13")
-    tables.check_graph_tables(ctx, p, r)
-    tables.check_traversal(ctx, p, r)
+    ctx.guard(generic_rules, ctx, p, r, "C13")
+    ctx.guard(tables.check_graph_tables, ctx, p, r)
+    ctx.guard(tables.check_traversal, ctx, p, r)
 
 
 def run(ctx: CheckContext):
